@@ -1,5 +1,5 @@
 # helpers shared by _control.py (C39) and _peerreg.py (C32)
-import copy, concurrent.futures, itertools
+import copy, concurrent.futures, itertools, os
 import vf
 
 _slot = itertools.count(1)
@@ -7,11 +7,14 @@ _slot = itertools.count(1)
 
 def par(ctx, jobs):
     """Run jobs (callables taking a ctx) concurrently.  Each job gets a shallow copy of ctx with its own scratch
-    numbering (ctx.tlc / ctx.gotest number their scratch files with a plain counter), sharing the work directory,
-    findings and logging.  Returns the results in order; the first exception is re-raised."""
+    numbering and scratch directory below ctx.work (ctx.tlc / ctx.gotest number their scratch files with a plain
+    counter and generate overlay files there), sharing findings and logging.  Returns the results in order; the first exception is re-raised."""
     def run(job):
         c = copy.copy(ctx)
-        c._n = 1000 * next(_slot)
+        k = next(_slot)
+        c._n = 1000 * k
+        c.work = os.path.join(ctx.work, "job%d" % k)     # own scratch (generated overlay files are per work dir)
+        os.makedirs(c.work, exist_ok=True)
         return job(c)
     if len(jobs) == 1:
         return [run(jobs[0])]
